@@ -295,8 +295,10 @@ def pointer_order(rep: Report, prog: Program) -> None:
     rep.ob(rule, cons.fq(), 'assignment seeded with zip(rule.rhs.ext, nt_asst)', cons.loc(), bool(seed), '' if seed else 'external nodes are not pre-assigned from the parent assignment')
     # producer side in indices: summed-out = first appearance minus outputs, pointers emitted in that order
     f = prog.func(IDX, 'log_viterbi_einsum_forward')
-    pops = [x for x in own_nodes(f.node) if isinstance(x, ast.Call) and callee_last(x) == 'pop' and norm(x.func.value) == 'index_to_vaxis']
-    vals = [x for x in own_nodes(f.node) if isinstance(x, ast.For) and norm(x.iter) in ('index_to_vaxis.values()', 'index_to_vaxis.items()')]
+    outp = f.positional_params()[2] if len(f.positional_params()) > 2 else 'output'
+    pops = [x for x in own_nodes(f.node) if isinstance(x, ast.Call) and callee_last(x) == 'pop' and isinstance(x.func.value, ast.Name) and x.args and isinstance(x.args[0], ast.Name)]
+    maps = {x.func.value.id for x in pops}
+    vals = [x for x in own_nodes(f.node) if isinstance(x, ast.For) and isinstance(x.iter, ast.Call) and callee_last(x.iter) in ('values', 'items') and norm(x.iter.func.value) in maps]
     rep.ob(rule, f.fq(), 'summed-out indices = first appearances minus outputs, pointers emitted in that order', f.loc(), bool(pops) and bool(vals),
            '' if pops and vals else 'index_to_vaxis is no longer popped for the outputs / iterated for the pointers')
 
